@@ -647,7 +647,7 @@ class JacFiniteJob:
         return r.status == REFUTED, r.detail
 
 
-NAN_AT_IDENTITY = {"SO3Quat.log(exp)": 1e-6, "SO3Dcm.log(exp)": 1e-7, "SE3Quat.log(exp)": 1e-6, "SE23Quat.log(exp)": 1e-6}
+NAN_AT_IDENTITY = {"SO3Dcm.log(exp)": 1e-7}  # the quaternion logarithms were repaired in round 2 (whole ball incl. zero)
 
 
 def jac_jobs():
